@@ -88,11 +88,12 @@ def _first_available_hook(ex: paths.Explorer, n, st):
     found = st
     none = st.clone()
     val = ('first-avail', itertxt, b.test.func.attr, next(paths._uid))
-    ex.emit(found, 'first_available', n, iter=itertxt, probe=b.test.func.attr, outcome='found', var=x, value=val, node=n)
+    prior = st.env.get(x)
+    ex.emit(found, 'first_available', n, iter=itertxt, probe=b.test.func.attr, outcome='found', var=x, value=val, node=n, prior=prior)
     found.env[x] = val
     found.env[n.target.id] = val
     found.notnone.add(x)
-    ex.emit(none, 'first_available', n, iter=itertxt, probe=b.test.func.attr, outcome='none', var=x, value=None, node=n)
+    ex.emit(none, 'first_available', n, iter=itertxt, probe=b.test.func.attr, outcome='none', var=x, value=None, node=n, prior=prior)
     none.env[n.target.id] = paths.fresh('last-edge')
     return [(found, 'normal'), (none, 'normal')]
 
